@@ -130,5 +130,13 @@ func (Sched) PoolPut(p *vs.Pool, x any) {
 	}
 }
 
-func (Sched) Lock(m *vs.Mutex)   { schedx.Lock(&m.Held) }
+func (Sched) Lock(m *vs.Mutex) {
+	if schedx.Current() < 0 { // set-up code on the controller goroutine
+		if !schedx.TryAcquire(&m.Held) {
+			panic("verif: set-up code blocks on a lock that is never released (deadlock)")
+		}
+		return
+	}
+	schedx.Lock(&m.Held)
+}
 func (Sched) Unlock(m *vs.Mutex) { schedx.Unlock(&m.Held) }
